@@ -1,3 +1,4 @@
+#![allow(unexpected_cfgs)]
 use std::collections::{HashMap, VecDeque};
 use tokio::sync::mpsc::{channel, Sender};
 use tokio::sync::oneshot;
@@ -28,11 +29,15 @@ impl Store {
         let db = rocksdb::DB::open_default(path)?;
         let mut obligations = HashMap::<_, VecDeque<oneshot::Sender<_>>>::new();
         let (tx, mut rx) = channel(100);
+        #[cfg(hotstuff_verif)]
+        let verif_path = path.to_string();
         tokio::spawn(async move {
             while let Some(command) = rx.recv().await {
                 match command {
                     StoreCommand::Write(key, value) => {
                         let _ = db.put(&key, &value);
+                        #[cfg(hotstuff_verif)]
+                        verif::emit(verif::Event::Write { store: verif_path.clone(), key: key.clone(), len: value.len() });
                         if let Some(mut senders) = obligations.remove(&key) {
                             while let Some(s) = senders.pop_front() {
                                 let _ = s.send(Ok(value.clone()));
@@ -89,5 +94,30 @@ impl Store {
         receiver
             .await
             .expect("Failed to receive reply to NotifyRead command from store")
+    }
+}
+
+/// Verification hook (compiled only with `--cfg hotstuff_verif`): an event sink.
+#[cfg(hotstuff_verif)]
+pub mod verif {
+    use std::sync::RwLock;
+
+    #[derive(Clone, Debug)]
+    pub enum Event {
+        /// A write was applied by the store task.
+        Write { store: String, key: Vec<u8>, len: usize },
+    }
+
+    type Sink = Box<dyn Fn(Event) + Send + Sync>;
+    static SINK: RwLock<Option<Sink>> = RwLock::new(None);
+
+    pub fn set_sink(sink: Option<Sink>) {
+        *SINK.write().unwrap_or_else(|e| e.into_inner()) = sink;
+    }
+
+    pub fn emit(event: Event) {
+        if let Some(sink) = SINK.read().unwrap_or_else(|e| e.into_inner()).as_ref() {
+            sink(event)
+        }
     }
 }
